@@ -241,6 +241,7 @@ def _build_tables() -> None:
         L = f"list[{e}]"
         _p(I, "len({0})", [L], "len.list")
         _p(e, "{0}[{1}]", [L, I], f"list.getitem[{e}]", 2.5)
+        _p(e, "{0}[{1}]", [L, "i64"], f"list.getitem.i64idx[{e}]", 0.7)
         _p(e, "{0}[-1]", [L], f"list.getitem.neg1[{e}]", 0.6)
         _p(e, "{0}[0]", [L], f"list.getitem.0[{e}]", 0.6)
         _p(e, "{0}.pop()", ["v:" + L], f"list.pop[{e}]", 0.7)
@@ -348,6 +349,7 @@ def _build_tables() -> None:
     _p(S, "({0} + {1})", [S, S], "str.concat", 1.5)
     _p(S, "({0} * ({1} & 3))", [S, I], "str.mul", 0.5)
     _p(S, "{0}[{1}]", [S, I], "str.getitem", 1.0)
+    _p(S, "{0}[{1}]", [S, "i64"], "str.getitem.i64idx", 0.3)
     _p(S, "{0}[{1}:{2}]", [S, I, I], "str.slice", 0.8)
     _p(S, "{0}[::-1]", [S], "str.slice_rev", 0.3)
     _p(S, "{0}.upper()", [S], "str.upper", 0.4)
